@@ -159,8 +159,8 @@ def _relabel():
             return None
         a = w.arr(a_id)
         how = rng.choice(["item", "item", "axvalues", "labels", "attr", "set_axis_list", "set_axis_dict", "set_axis_fn",
-                          "axes_setitem"])
-        if how == "labels":
+                          "axes_setitem", "axes_assign"])
+        if how in ("labels", "axes_assign"):
             new = []
             for ax in list.__iter__(a._axes):
                 labs = plain_labels(ax)
@@ -202,6 +202,14 @@ def _relabel():
             if len(s["new"]) != a.ndim:
                 raise Skip("rank")
             a.labels = tuple(V.label_array(l) for l in s["new"])
+            return None
+        if how == "axes_assign":
+            if len(s["new"]) != a.ndim:
+                raise Skip("rank")
+            if len(s["new"]) % 2:
+                a.axes = [Axis(V.label_array(l), d) for l, d in zip(s["new"], a.dims)]
+            else:
+                a.axes = [(d, V.label_array(l)) for l, d in zip(s["new"], a.dims)]
             return None
         ax = a.axes[s["axis"]]
         if how == "item":
@@ -373,6 +381,71 @@ def _ds_setitem():
             if "C15" in w.props and V.snap(b) != before:
                 raise Violation("C15", "operand_changed", "ds[%r] = b changed b: %s" % (
                     s["key"], V.describe_snap_diff(before, V.snap(b))))
+        return None
+    return gen, run
+
+
+@defop("ds_inplace", "dataset", kind="inplace", weight=1.2)
+def _ds_inplace():
+    def gen(w, rng):
+        dss = w.datasets()
+        if not dss:
+            return None
+        d_id = rng.choice(dss)
+        ds = w.dset(d_id)
+        if not ds.dims:
+            return None
+        i = rng.randrange(len(ds.dims))
+        labs = plain_labels(ds.axes[i])
+        if not labs:
+            return None
+        what = rng.choice(["item", "set_axis", "rename", "del", "axes_setitem"])
+        st = {"a": d_id, "what": what, "axis": ds.dims[i] if rng.random() < 0.6 else i, "dim": ds.dims[i]}
+        if what == "item":
+            lab = _unique_new_label(rng, labs)
+            if lab is None:
+                return None
+            st["i"], st["lab"] = rng.randrange(len(labs)), lab
+        elif what in ("set_axis", "axes_setitem"):
+            st["new"] = fresh_labels(rng, len(labs), labs)
+            if len(st["new"]) != len(labs):
+                return None
+        elif what == "rename":
+            free = _free_names(w, [ds.axes[i]], extra=ds.dims)
+            if not free:
+                return None
+            st["new"] = rng.choice(free)
+        else:
+            keys = list(dict.keys(ds))
+            if not keys:
+                return None
+            st["key"] = rng.choice(keys)
+        return st
+
+    def run(w, s):
+        from dimarray import Axis
+        ds = w.dset(s["a"])
+        what = s["what"]
+        if what == "del":
+            if s["key"] not in dict.keys(ds):
+                raise Skip("key")
+            del ds[s["key"]]
+            return None
+        if s["dim"] not in ds.dims:
+            raise Skip("dim")
+        ax = ds.axes[s["axis"]]
+        if what == "item":
+            if s["lab"] in (plain_labels(ax) or [s["lab"]]):
+                raise Skip("dup")
+            ax[s["i"]] = s["lab"]
+        elif what == "set_axis":
+            ds.set_axis(V.label_array(s["new"]), axis=s["axis"])
+        elif what == "axes_setitem":
+            ds.axes[s["axis"]] = Axis(V.label_array(s["new"]), ax.name)
+        else:
+            if s["new"] in ds.dims:
+                raise Skip("name")
+            ds.axes[s["axis"]].name = s["new"]
         return None
     return gen, run
 
